@@ -53,10 +53,13 @@ def run_controls(ctx, prop, log=None):
                     # any violation of this property counts: the recorded keys are informational (key spellings may
                     # be refined later; MATRIX.json is refreshed by tools/seed_matrix.py)
                     pairs.append((patch, "."))
-    benign = sorted(p for d in sorted(os.listdir(os.path.join(_facts.VERIF, "controls", "benign")))
-                    for p in [os.path.join(_facts.VERIF, "controls", "benign", d, f)
-                              for f in sorted(os.listdir(os.path.join(_facts.VERIF, "controls", "benign", d))) if f.endswith(".diff")]
-                    ) if os.path.isdir(os.path.join(_facts.VERIF, "controls", "benign")) else []
+    bdir = os.path.join(_facts.VERIF, "controls", "benign")
+    benign = []
+    if os.path.isdir(bdir):
+        for d in sorted(os.listdir(bdir)):
+            dd = os.path.join(bdir, d)
+            if os.path.isdir(dd):
+                benign.extend(os.path.join(dd, f) for f in sorted(os.listdir(dd)) if f.endswith(".diff"))
     if not pairs and not benign:
         ctx.note("no controls registered for %s" % prop)
         return
